@@ -42,8 +42,17 @@ def gen_history(rng, i, hist):
         elif r < 0.82: lines.append("K %d %d %d" % ((rng.choice([0, 1, 2, 3, 5, 8, 1000]),) + pt()))
         elif r < 0.92: lines.append("RAD %d %d %d" % ((rng.choice([0, 1, 2, 4, 10, 100000]),) + pt()))
         elif r < 0.95: lines.append("LST")
-        elif r < 0.97: lines.append("SZ")
-        else: lines.append("DUMP")
+        elif r < 0.96: lines.append("SZ")
+        else:
+            # a dump followed by queries on the same state: the GNAT search model is run on the dumped tree
+            lines.append("DUMP"); hist["DUMP"] += 1
+            for _ in range(rng.randint(2, 5)):
+                t = rng.random()
+                if t < 0.25: lines.append("N %d %d" % pt())
+                elif t < 0.65: lines.append("K %d %d %d" % ((rng.choice([1, 1, 2, 3, 5, 8, 1000]),) + pt()))
+                else: lines.append("RAD %d %d %d" % ((rng.choice([0, 1, 2, 4, 10, 100000]),) + pt()))
+                hist[lines[-1].split()[0]] += 1
+            continue
         hist[lines[-1].split()[0]] += 1
     lines += ["LST", "SZ", "DUMP"]
     return lines
@@ -120,14 +129,17 @@ def main():
     k = 0
     distinct = set()
     trees = []      # (history index, op index, structure, TREE tokens, removed, contents)
+    gq = []         # (history index, op index, structure, implementation's distances, GQ line for the search model)
     for hi, h in enumerate(hs):
         outs = run_one(h) if crashed else io[k:k + len(h)]
         mouts = mo[k:k + len(h)]; k += len(h)
         if sum(1 for l in h if l.startswith("R ")) >= 2 and len(h) > 10: distinct.add("\n".join(h))
         present = []
         bad = None; differs = None
+        dumped = {}     # structure index -> (TREE tokens, removed) of the last dump, valid until the next modifying op
         for j, (ln, out, mout) in enumerate(zip(h, outs, mouts)):
             w = ln.split()
+            if w[0] in ("NEW", "A", "AL", "R", "C"): dumped = {}
             if w[0] == "NEW": present = []; continue
             secs = [x.strip() for x in out.split(" # ")]
             if len(secs) != 4:
@@ -182,8 +194,19 @@ def main():
                 for si in (0, 1):
                     m = re.search(r"<<<(.*)>>>", secs[si])
                     tok, removed = parse_dump(m.group(1)) if m else (None, [])
-                    if tok: trees.append((hi, j, si, tok, removed, list(present)))
+                    if tok: trees.append((hi, j, si, tok, removed, list(present))); dumped[si] = (tok, removed)
                     elif present: bad = bad or "%s: empty dump with %d elements held" % (NAMES[si], len(present))
+            if w[0] in ("N", "K", "RAD") and dumped and len(secs) == 4:
+                for si, (tok, removed) in dumped.items():
+                    sc = secs[si]
+                    if w[0] == "N":
+                        if sc == "EXC": continue
+                        kind, arg, got = "K", 1, [int(float(sc.split(":")[0]))]
+                    else:
+                        kind, arg = ("K" if w[0] == "K" else "R"), int(w[1])
+                        got = [int(float(x.split(":")[0])) for x in sc.split()[1:]]
+                    if kind == "K" and arg == 0: continue
+                    gq.append((hi, j, si, got, "GQ %s %d %s %s %d %d %s %s" % (kind, arg, w[-2], w[-1], (hi * 31 + j) % 1000, len(removed), " ".join(x.replace(",", " ") for x in removed), tok)))
         if bad:
             npred += 1
             if first_pred is None or len(h) < len(first_pred[0]): first_pred = (h, bad)
@@ -206,12 +229,26 @@ def main():
             if +els != held:
                 npred += 1
                 if first_pred is None or len(hs[hi]) < len(first_pred[0]): first_pred = (hs[hi], "%s: tree elements minus the removal cache differ from the elements held after op %d" % (NAMES[si], j))
+    # ---- the GNAT search model (whose exactness on invariant-satisfying trees is proved) run on the dumped trees gives
+    #      the distances the implementation answered on the live structure
+    nq_diff = 0
+    if gq:
+        rc4, o4, e4, s4 = vf.sh([model, "nn"], input="\n".join(g[4] for g in gq) + "\n", timeout=3000)
+        c.step("correspond:gnat-search-model", model + " nn (GQ lines: GnatModel.gnat_nearestK / gnat_nearestR on parsed dumps)", s4, rc4 == 0)
+        res = o4.split("\n")
+        for (hi, j, si, got, line), r in zip(gq, res + [""] * len(gq)):
+            w = r.split()
+            mod = list(map(int, w[1:-1])) if w and w[0].lstrip("-").isdigit() and w[-1] in ("piv", "nopiv") else None
+            if mod != got:
+                nq_diff += 1; ndiff += 1
+                if first_diff is None or len(hs[hi]) < len(first_diff[0]): first_diff = (hs[hi], (j, "%s answered distances %s" % (NAMES[si], got[:10]), "search model on the dumped tree: %s" % r[:120]))
+    c.cov.update({"gnat_search_model_queries": len(gq), "gnat_search_model_disagreements": nq_diff})
     c.cov.update({"evaluations": len(flat), "traces_validated_against_impl": len(hs), "distinct_nontrivial": len(distinct), "trees_checked": len(trees),
                   "rule": "random histories (<=170 ops) of add / add(vector) / remove(present or absent) / clear / nearest / nearestK (k in {0,1,2,3,5,8,1000}) / nearestR (r in {0,1,2,4,10,1e5}) / list / size / dump over 9 tree parameterisations (incl. leaf size < degree, tiny removal caches, rebalancing) and 4 point distributions (7x7 lattice with heavy ties, 6 duplicate sites, far clusters, a line); non-trivial = distinct history with >= 2 removals and > 10 ops",
                   "op_histogram": dict(hist), "disagreements": ndiff, "predicate_failures": npred})
     c.cov["samples"] = [" ; ".join(hs[0][:14]), " ; ".join(hs[-1][:14])]
     c.cov["trusted_base"] += ["extraction (ExtrOcamlBasic) + extract/nn_driver.ml; harness/nn_driver.cpp; the parser of NearestNeighborsGNAT's operator<< output in checks/C10.py",
-                             "GNAT theorems are about the pruning tests and the tree invariant; that the C++ search loops examine every unpruned node is validated per run (answers = exhaustive search), not proved"]
+                             "GnatModel.v is a hand transcription of Node::nearestK/nearestR and nearestKInternal/nearestRInternal; it is proved exact on every invariant-satisfying tree for all removal caches, offset sequences and queue orders, and tied to the code by (a) the invariant checked on dumps of the real trees, (b) the model's answers on those dumps = the implementation's answers; GNAT add/split/remove/rebuild are covered by (a) only"]
     c.assumptions += ["distance function is a metric (L1 on Z^2 in the correspondence; hypotheses d_sym/d_tri in the theorems)", "integer-valued distances (exact in binary64)"]
     def wellformed(h): return h and h[0].startswith("NEW")
     if first_pred:
